@@ -1,6 +1,6 @@
 ------------------------------ MODULE CheckFold ------------------------------
 (* Judge for C06.  A case is an expression tree over numeric literals together     *)
-(* with two observations of the real binary: the *folded* rendering (literals in   *)
+(* with its observations of the real binary (plus the mixed renderings, see MixedOk): the *folded* rendering (literals in   *)
 (* place: the compiler evaluates it) and the *unfolded* rendering (every literal   *)
 (* reaches the expression through a variable: the interpreter evaluates it).        *)
 (* MSNum gives the value and kind both must have, or says that both must fail -     *)
@@ -61,6 +61,11 @@ Holds(r, folded, unfolded) ==
                  /\ unfolded.status = "ok" /\ Same(r.v, unfolded.val)
     ELSE folded.status = "reject" /\ unfolded.status = "fail"
 
+(* the *mixed* renderings (every other literal reaches the expression through a variable, the rest stay in place: the    *)
+(* compiler folds some sub-expressions, specialises operators with one constant operand, and the interpreter does the    *)
+(* rest): the same value and kind; a failing tree fails in either phase                                                  *)
+MixedOk(r, ms) == \A k \in 1..Len(ms) : IF r.ok THEN ms[k].status = "ok" /\ Same(r.v, ms[k].val) ELSE ms[k].status \in {"reject", "fail"}
+
 Skip(r) == (~r.ok /\ (r.oom \/ r.why = "type"))
 
 Judge ==
@@ -78,6 +83,6 @@ Judge ==
              \/ PrintT("DISAGREE " \o ToJson([id |-> c.id, expected |-> <<[fail |-> TRUE]>>]))
     ELSE LET r == Ev(c.tree) IN
          IF IllTyped(c.tree) \/ Skip(r) THEN PrintT("SKIP " \o ToJson([id |-> c.id]))
-         ELSE Holds(r, c.folded, c.unfolded)
+         ELSE (Holds(r, c.folded, c.unfolded) /\ MixedOk(r, c.mixed))
               \/ PrintT("DISAGREE " \o ToJson([id |-> c.id, expected |-> IF r.ok THEN <<Show(r.v)>> ELSE <<[fail |-> r.why]>>]))
 =============================================================================
